@@ -13,9 +13,9 @@ CLAIMS = {
          'Every generated session (all 556 handshake strings, all 24 primitive suites, custom names via NoiseParams::new, permuted modifiers, max-length payloads, transport scripts, both roles, stateful and stateless, mixed snow/model sessions) is compared byte for byte - messages, handshake hash after every message, payload-encrypted flag - with an independent model of the specification; snow is also run directly against the 472 third-party cacophony vectors. Held on everything explored; no proof of absence.', TB_MODEL, 'DESIGN.md 3 C01'),
  'C02': ('exploration', 'round-trip property over generated honest sessions with real OS randomness (proptest + enumeration of all names)',
          'Round trip of honest sessions for every handshake string and suite with keys from generate_keypair and real random ephemerals (recorded), payload lengths 0..max, up to 30 transport messages in arbitrary direction interleaving, stateful/stateless per side with reordered delivery; thorough adds every (name, suite) pair and the hfs/Kyber build. The oracle does not depend on the random values.', TB_API, 'DESIGN.md 3 C02'),
- 'C03': ('fault_enumeration', 'fault enumeration over message alterations with field maps from the reference model (+ proptest random edits)',
+ 'C03': ('fault_enumeration', 'fault enumeration over message alterations with field maps from the reference model (+ proptest random edits; + libFuzzer target hs_alter in thorough)',
          'Enumerates alterations of every handshake message (bit flips, truncations, extensions, byte edits, substitution by earlier / parallel-session messages); exhaustive for all single-bit flips and all truncation lengths of every message of the 38 base patterns. Checks that both parties never finish without an error and that alterations inside encrypted fields are rejected by the receiving read.', TB_API, 'DESIGN.md 3 C03'),
- 'C04': ('fault_enumeration', 'fault enumeration on transport messages with accept-iff-genuine oracle over both cipher backends (+ proptest)',
+ 'C04': ('fault_enumeration', 'fault enumeration on transport messages with accept-iff-genuine oracle over both cipher backends (+ proptest; + libFuzzer target tr_forge in thorough)',
          'Forgeries of transport messages (all bit flips of sample messages, all truncations, extensions, reflection, cross-session, early/replayed messages, stateless nonce substitution over all 64 bit positions and boundary pairs) must be rejected and the genuine message must still be accepted afterwards, for all ciphers, hashes, both backends, both modes, interactive and one-way.', TB_API, 'DESIGN.md 3 C04'),
  'C05': ('exploration', 'model-based testing of delivery schedules: bounded-exhaustive enumeration + proptest schedules with shrinking',
          'All delivery schedules up to length 5 (6 thorough) over {deliver any of K messages, garbage, undersized buffer, oversize} plus random longer schedules with set_receiving_nonce in both directions are checked against a one-integer-per-direction model after every step.', TB_API, 'DESIGN.md 3 C05'),
@@ -50,6 +50,31 @@ CLAIMS = {
  'C20': ('exploration', 'differential testing across crypto backends (transcript equality over all 9 backend assignments) + exhaustive fallback-resolution table with marker resolvers',
          'For every handshake string and every suite both backends support, transcripts (handshake, hashes, transport incl. rekey, stateless) of all 9 backend assignments are byte-identical and interoperate; the complete (kind, choice, availability) table of FallbackResolver is enumerated with tagged resolvers.', TB_API, 'DESIGN.md 3 C20'),
 }
+
+# what the strengthening passes (DESIGN.md 8.6-8.11) added on top of the original claim texts
+ADDENDA = {
+ 'C01': 'Also: PSKs supplied late / twice / replaced / in stray slots, all-zero and all-ones PSKs, transport counters started just below 2^8..2^64, shaped keys (public keys / DH outputs with leading or trailing zero bytes), and the initiator\'s first message for ARBITRARY 32-byte pre-shared responder keys (twist points, non-canonical encodings).',
+ 'C02': 'Also: sessions of 66 000 transport messages, DH outputs with leading/trailing zero bytes, PSKs supplied by set_psk on one side only or on both, all-zero / all-ones PSKs.',
+ 'C03': 'Also: ring backends, exact-size read buffers, block swaps, related ephemerals, sessions with the same static keys, the same alterations on messages with large payloads (1000 .. 4 KiB .. 32 KiB .. the maximum); thorough adds the libFuzzer target hs_alter (XOR masks / cuts / extensions over the genuine message under the same oracle).',
+ 'C04': 'Also: forged deliveries into too-small and empty buffers, repeated forgeries, sessions with the same static keys, counters near 2^8..2^64, a payload length ladder up to 65519, all-zero messages; thorough adds the libFuzzer target tr_forge.',
+ 'C05': 'Also: counter bases near every boundary, explicit receiving-nonce changes back and ahead inside the exhaustive alphabet, 600-message in-order runs with bursts of up to 260 consecutive rejected deliveries.',
+ 'C06': 'Also: writes at the reserved nonce, set_receiving_nonce and genuine deliveries inside the histories (incl. the send-only side of one-way patterns).',
+ 'C07': 'Also: failing set_psk, calls after the last message, fault pairs and scattered faults, stateless endings, an unneeded remote key supplied up front, an invalid (but correctly encrypted) static key from a key-holding peer, and a random source that yields different bytes while an injected failing call runs.',
+ 'C08': 'Also: prologues beyond 64 KiB differing in the last byte, trailing zeros, and a pre-shared static key with one bit changed (X25519: bit 255, another encoding of the same point).',
+ 'C09': 'Also: manual rekeys, counters started 2 below every power of two, 300-message runs, 70/300/1000 consecutive failing reads and writes, deliveries longer than 65535 bytes or shorter than a tag.',
+ 'C10': 'Also: dense length sweeps with exact-size buffers on both backends up to 65535, every parsed name built with all keys and ten PSKs supplied, names with up to 5000 modifiers and every psk index 0..300.',
+ 'C11': 'Also: transport continuations with manual and automatic rekeys; ephemerals drawn from a random source that yields other bytes during calls the model expects to fail.',
+ 'C12': 'Also: ordered pairs / triples of psk modifiers, indices 10..255, all-zero / all-ones PSK values.',
+ 'C13': 'Also: every ordered pair over psk0..psk257, duplicate-free modifier lists of every length up to 257 (names up to 1700 bytes), token-level edits (duplicate / delete / swap / replace / insert over a 34-word vocabulary), double edits.',
+ 'C14': 'Also: dense payload/length sweeps to 65535 on both backends with exact buffers, and valid ciphertexts LONGER than 65535 bytes sealed with the reference cipher under the session keys (must be refused; the 65535-byte control is accepted).',
+ 'C15': 'Also: one-way configurations, counter jumps, a 10-key manual pool (shared prefixes, the session\'s initial keys, all-zero / constant-fill / s||s keys).',
+ 'C16': 'Also: payloads up to 65519 under concurrency, thousands of rejected reads between accepted ones, manual rekey variants (both keys in one call, one direction per call, automatic then manual) applied alike to stateless objects and stateful twins.',
+ 'C17': 'Also: pre-shared keys supplied without their trailing zero bytes, reads that fail for a missing PSK after the static-key field was processed (with and without an extra supplied key).',
+ 'C18': 'Also: hasher objects reused with pending input, associated-data and plaintext ladders up to 65535, low-order X25519 inputs (either standard behaviour accepted).',
+ 'C19': 'Also: the handshake static-key field as the secret, messages cut inside the payload field, repeated deliveries, rekeys first, output buffers 0..5 bytes short / larger than 65535, plaintext lengths at multiples of 4 KiB, large message numbers, position-aligned fragments of 6 bytes.',
+ 'C20': 'Also: read buffers with slack, a transport length ladder, manual keys / automatic rekey / the same manual keys again, and nested fallback resolvers over all 16^3 availability vectors.',
+}
+
 NOT_YET = 'check not built yet in this phase (planned, see DESIGN.md 3.22)'
 
 checks = []
@@ -63,7 +88,7 @@ for i in ids:
             'evidence_file': f'/verif/evidence/{i}.json',
             'replay_cmd_template': f'./check {i} --replay {{path}}',
             'engine': 'snowverif',
-            'level_claimed': {'category': cat, 'text': text, 'design_ref': ref},
+            'level_claimed': {'category': cat, 'text': text + ' ' + ADDENDA.get(i, '') + ' The complete, current list of generated classes is the `rule` field of the evidence file.', 'design_ref': ref},
             'level_note': note,
             'technique': tech,
         })
